@@ -180,6 +180,7 @@ _SAFE_BUILTINS = {
     'ValueError': ValueError, 'TypeError': TypeError, 'KeyError': KeyError,
     'NotImplementedError': NotImplementedError, 'AssertionError': AssertionError,
     'IndexError': IndexError,
+    'super': lambda *a, **k: _SuperStub(),
 }
 
 _BINOPS = {
@@ -193,6 +194,18 @@ _CMPOPS = {
     ast.Gt: operator.gt, ast.GtE: operator.ge, ast.Is: operator.is_, ast.IsNot: operator.is_not,
     ast.In: lambda a, b: a in b, ast.NotIn: lambda a, b: a not in b,
 }
+
+
+class _SuperStub(Host):
+    """`super(...)` inside a folded __init__: base initialisers are not followed."""
+
+    def __init__(self, *a, **k):
+        pass
+
+    def __getattr__(self, name):
+        if name == '__init__':
+            return lambda *a, **k: None
+        raise AttributeError(name)
 
 
 class _NullLogger(Host):
@@ -441,6 +454,30 @@ class Interp:
                     del obj[self.eval_index(mod, t.slice, env)]
                 else:
                     self.unsupported(mod, st)
+        elif isinstance(st, ast.Try):
+            try:
+                try:
+                    self.exec_block(mod, st.body, env)
+                except InterpRaise as e:
+                    for h in st.handlers:
+                        names = []
+                        if h.type is None:
+                            names = None
+                        elif isinstance(h.type, ast.Tuple):
+                            names = [norm(x).split('.')[-1] for x in h.type.elts]
+                        else:
+                            names = [norm(h.type).split('.')[-1]]
+                        if names is None or e.exc_name in names or 'Exception' in names or 'BaseException' in names:
+                            if h.name:
+                                env.assign(h.name, e)
+                            self.exec_block(mod, h.body, env)
+                            break
+                    else:
+                        raise
+                else:
+                    self.exec_block(mod, st.orelse, env)
+            finally:
+                self.exec_block(mod, st.finalbody, env)
         elif isinstance(st, (ast.Import, ast.ImportFrom)):
             pass  # resolved lazily through the module import table
         else:
